@@ -363,7 +363,7 @@ theorem getStaged?_key (s : WState) (k : TaskKey) (sx : Staged) (h : s.getStaged
 theorem ensureRecord_cmd (k : TaskKey) (s0 : Option Staged) (r0 : Option Nat) (ev : Event) (c c1 : Cond)
     (idx : Nat) (hcmd : isCmdName k.1 = true) (h : ensureRecord E k s0 r0 ev c = (.ok idx, c1)) :
     ∃ r, c1.st.sequence[idx]? = some r ∧ r.status = none := by
-  unfold ensureRecord at h
+  unfold ensureRecord firstRecord recordFromStaged at h
   obtain ⟨i, c', h1, h2⟩ := M.bind_ok h
   have h1' : ∃ sx : Staged, addTaskState E (k.1, sx.route) sx.ctxsIn sx.prev c = (.ok i, c') := by
     cases r0 <;> simp only [hcmd] at h1 <;> (cases s0 with
@@ -389,7 +389,7 @@ theorem ensureRecord_taskIdx (k : TaskKey) (ev : Event) (c c1 : Cond)
     (idx : Nat) (hcmd : isCmdName k.1 = false)
     (h : ensureRecord E k (c.st.getStaged? k) (c.st.taskIdx? k) ev c = (.ok idx, c1)) :
     c1.st.taskIdx? k = some idx := by
-  unfold ensureRecord at h
+  unfold ensureRecord firstRecord recordFromStaged at h
   obtain ⟨i, c', h1, h2⟩ := M.bind_ok h
   obtain ⟨c2, c3, hget, h3⟩ := M.bind_ok h2
   obtain ⟨e1, e2⟩ := get_ok hget
@@ -457,7 +457,7 @@ theorem liftOpt_state {α} (o : Option α) (e : Err) (c : Cond) : (liftOpt o e c
 theorem ensureRecord_retry_inv (k : TaskKey) (s0 : Option Staged) (i0 : Nat) (ev : Event) (c c1 : Cond) (idx : Nat)
     (hcmd : isCmdName k.1 = false) (hstart : ev.status.isStarting = false)
     (h : ensureRecord E k s0 (some i0) ev c = (.ok idx, c1)) : i0 = idx ∧ c = c1 := by
-  unfold ensureRecord at h
+  unfold ensureRecord firstRecord recordFromStaged at h
   obtain ⟨i, c', h1, h2⟩ := M.bind_ok h
   simp only [hcmd] at h1
   obtain ⟨e1, e2⟩ := pure_ok h1
